@@ -489,7 +489,7 @@ Section Sim.
     intros HR. begin. split; [|exact HR]. rd.
     destruct (target_cases st sh i HR) as [[A1 A2]|[(ca & ma & A1 & A2)|[(aa & ia & sa & A1 & A2 & _)|[A1 A2]]]];
     destruct (target_cases st sh j HR) as [[B1 B2]|[(cb & mb & B1 & B2)|[(ab & ib & sb & B1 & B2 & _)|[B1 B2]]]];
-    rewrite A1, A2, B1, B2; try reflexivity; try apply merge_any.
+    rewrite A1, A2; rewrite ?B1, ?B2; try reflexivity; try apply merge_any.
     - (* nil, coll *)
       destruct cb as [p|p|p|p|p]; try apply merge_any.
       destruct (merge_defined (TNil L) SNil (TColl L (IMap p) mb) (SColl (CMap (m_items L p)) mb)) as [[_ H]|(m1 & m2 & pr & S1 & S2 & E & P)];
@@ -506,5 +506,285 @@ Section Sim.
                               (TColl L (IMap q) mb) (SColl (CMap (m_items L q)) mb)) as [[H _]|(m1 & m2 & pr & S1 & S2 & E & P)];
         [right; eauto|right; eauto|discriminate|].
       cbn [abs_coll]. rewrite S1, S2, E. rd. apply acc_coll_ce. constructor. symmetry. exact P.
+    - (* coll, transient *)
+      destruct ca; cbn [abs_coll Spec.merge_arg]; apply merge_any.
+  Qed.
+
+  (** ** reads *)
+  Lemma acc_seq o l : accept (xseq o l) (abs_res L (seq_res L o l)) = true.
+  Proof. destruct l; [reflexivity|]. unfold xseq, seq_res. rd. apply acc_exact. Qed.
+
+  Lemma sim_seq st sh i : Rheap (heap st) sh -> sim_step st sh (OSeq i).
+  Proof.
+    intros HR. begin. cases_on st sh i HR; rd; (split; [|exact HR]); try reflexivity.
+    rewrite coll_len_abs, ordered_abs, items_abs. unfold c_len. rewrite zlen_eq0.
+    destruct (c_items (abs_coll L c)) eqn:E; [reflexivity|]. rewrite <- E. apply acc_seq.
+  Qed.
+
+  Lemma sim_rseq st sh i : Rheap (heap st) sh -> sim_step st sh (ORseq i).
+  Proof.
+    intros HR. begin. cases_on st sh i HR; rd; (split; [|exact HR]); try reflexivity.
+    destruct c; cbn [abs_coll]; try reflexivity. apply acc_seq.
+  Qed.
+
+  Lemma sim_count st sh i : Rheap (heap st) sh -> sim_step st sh (OCount i).
+  Proof.
+    intros HR. begin. cases_on st sh i HR; rd; (split; [|exact HR]); try reflexivity.
+    - rewrite coll_len_abs. apply acc_exact.
+    - destruct ic as [e|mm|mm], sc as [l|m f|l f]; simpl in HC; try contradiction; rd.
+      + subst l. rewrite H_evolver_len. apply acc_exact.
+      + destruct HC as [R _]. rewrite (Rmut_len L _ _ R). unfold cell_len, c_len, zlen. simpl. rewrite map_length. apply Z.eqb_refl.
+      + destruct HC as [R _]. rewrite (Rkeys_len L _ _ R). apply acc_exact.
+  Qed.
+
+  Lemma nth_error_clj (l : list elem) z : (0 <= z)%Z -> nth_error l (Z.to_nat z) = clj_nth l z.
+  Proof.
+    intro H. unfold clj_nth. destruct (0 <=? z)%Z eqn:A; [|apply Z.leb_gt in A; lia].
+    destruct (z <? zlen l)%Z eqn:B; [reflexivity|]. simpl. apply nth_error_None. apply Z.ltb_ge in B. unfold zlen in B. lia.
+  Qed.
+
+  Lemma key_int_num k z : key_int k = Some z -> key_num k = Some z.
+  Proof. destruct k as [[]|]; simpl; congruence. Qed.
+
+  Lemma acc_nth_res (o : option elem) nf :
+    accept match o, nf with Some e, _ => xval e | None, Some d => xval d | None, None => XErr end
+           (abs_res L match o, nf with Some e, _ => RVal e | None, Some d => RVal d | None, None => RErr EIndex end) = true.
+  Proof. destruct o, nf; try apply acc_val; reflexivity. Qed.
+
+  Lemma vec_nth_sim l k nf (g : Z -> option elem) : neg_key k = false -> (forall z, g z = py_nth l z) ->
+    accept (v_nth l k nf)
+      (abs_res L match key_int k with
+                 | Some z => match g z, nf with Some e, _ => RVal e | None, Some d => RVal d | None, None => RErr EIndex end
+                 | None => RErr EType end) = true.
+  Proof.
+    intros N G. unfold v_nth. destruct (key_int k) as [z|] eqn:E; [|reflexivity].
+    rewrite G, (py_nth_nonneg _ _ (neg_key_int k z N E)). apply acc_nth_res.
+  Qed.
+
+  Lemma list_nth_sim p k nf : accept (v_nth (pl_list L p) k nf) (abs_res L (list_nth L p k nf)) = true.
+  Proof.
+    unfold v_nth, list_nth. destruct (key_int k) as [z|] eqn:E.
+    - rewrite (key_int_num k z E). destruct (0 <=? z)%Z eqn:A.
+      + apply Z.leb_le in A. rewrite (nth_error_clj _ _ A). apply acc_nth_res.
+      + replace (clj_nth (pl_list L p) z) with (@None elem) by (unfold clj_nth; rewrite A; reflexivity).
+        apply (acc_nth_res None).
+    - destruct (match key_num k with Some z => if (0 <=? z)%Z then nth_error (pl_list L p) (Z.to_nat z) else None | None => None end), nf;
+        reflexivity.
+  Qed.
+
+  Lemma sim_nth st sh i k nf : Rheap (heap st) sh -> hazard_neg L st (ONth i k nf) = false ->
+    sim_step st sh (ONth i k nf).
+  Proof.
+    intros HR HZ. begin. cbn [hazard_neg] in HZ. cases_on st sh i HR; rd; (split; [|exact HR]); try reflexivity.
+    - apply acc_val.
+    - destruct c as [p|p|p|p|p]; cbn [abs_coll]; try reflexivity.
+      + unfold vec_nth. apply vec_nth_sim; [eapply hz_vec; eauto; exact ONil|apply H_pvec_get].
+      + apply list_nth_sim.
+    - destruct ic as [e|mm|mm], sc as [l|m f|l f]; simpl in HC; try contradiction; try reflexivity.
+      subst l. unfold tvec_nth. apply vec_nth_sim; [eapply hz_tvec; eauto; exact ONil|apply H_evolver_get].
+  Qed.
+
+  Lemma set_get_acc l k dd (present : bool) : present = mem k l ->
+    accept match s_find k l with Some y => XKeq y | None => xval dd end
+           (abs_res L (RVal (if present then k else dd))) = true.
+  Proof.
+    intros ->. destruct (s_find k l) as [y|] eqn:E.
+    - assert (mem k l = true) as -> by (apply s_find_mem; eauto). rd. simpl. rewrite keq_sym. eapply s_find_keq; eauto.
+    - assert (mem k l = false) as ->.
+      { destruct (mem k l) eqn:M; [|reflexivity]. apply s_find_mem in M as [y Hy]. congruence. }
+      apply acc_val.
+  Qed.
+
+  Lemma sim_get st sh i k d : Rheap (heap st) sh -> hazard_neg L st (OGet i k d) = false ->
+    sim_step st sh (OGet i k d).
+  Proof.
+    intros HR HZ. begin. cbn [hazard_neg] in HZ. cases_on st sh i HR; rd; (split; [|exact HR]); try apply acc_val; try reflexivity.
+    - destruct c as [p|p|p|p|p]; cbn [abs_coll]; try apply acc_val.
+      + rewrite vec_val_at_sim by (eapply hz_vec; eauto; exact ONil). apply acc_val.
+      + rewrite H_map_get. apply acc_val.
+      + apply set_get_acc. rewrite H_map_get, has_key_al_get. reflexivity.
+    - destruct ic as [e|mm|mm], sc as [l|m f|l f]; simpl in HC; try contradiction.
+      + subst l. unfold tvec_val_at, v_get. destruct (key_int k) as [z|] eqn:E; [|reflexivity].
+        assert (neg_key k = false) as N by (eapply hz_tvec; eauto; exact ONil).
+        rewrite H_evolver_get, (py_nth_nonneg _ _ (neg_key_int k z N E)). apply acc_val.
+      + destruct HC as [R _]. rewrite (Rmut_get L _ _ k R). apply acc_val.
+      + destruct HC as [R _]. apply set_get_acc. apply Rkeys_has. exact R.
+  Qed.
+
+  Lemma sim_contains st sh i k : Rheap (heap st) sh -> sim_step st sh (OContains i k).
+  Proof.
+    intros HR. begin. cases_on st sh i HR; rd; (split; [|exact HR]); try reflexivity.
+    - destruct c as [p|p|p|p|p]; cbn [abs_coll]; try reflexivity.
+      + unfold vec_contains, v_contains. rewrite H_pvec_len. apply acc_exact.
+      + rewrite H_map_get, has_key_al_get. apply acc_exact.
+      + rewrite H_map_get, has_key_al_get. apply acc_exact.
+    - destruct ic as [e|mm|mm], sc as [l|m f|l f]; simpl in HC; try contradiction.
+      + subst l. unfold tvec_contains, v_contains. destruct (key_int k) as [z|] eqn:E.
+        * rewrite (key_int_num k z E), H_evolver_len. apply acc_exact.
+        * destruct (key_num k); reflexivity.
+      + destruct HC as [R _]. rewrite (Rmut_get L _ _ k R), has_key_al_get. apply acc_exact.
+      + destruct HC as [R _]. rewrite (Rkeys_has L _ _ k R). apply acc_exact.
+  Qed.
+
+  (** ** transients *)
+  Lemma sim_transient st sh i : Rheap (heap st) sh -> sim_step st sh (OTransient i).
+  Proof.
+    intros HR. begin. pose proof (Rheap_length _ _ HR) as Len.
+    cases_on st sh i HR; try (rd; split; [reflexivity|exact HR]).
+    - destruct c as [p|p|p|p|p]; cbn [abs_coll]; rd; try (split; [reflexivity|exact HR]).
+      + split; [rewrite Len; apply acc_exact|]. apply Rheap_app; [exact HR|]. simpl. apply H_evolver_of.
+      + split; [rewrite Len; apply acc_exact|]. apply Rheap_app; [exact HR|]. simpl. apply Rmut_mutate.
+      + split; [rewrite Len; apply acc_exact|]. apply Rheap_app; [exact HR|]. simpl. apply Rkeys_mutate.
+  Qed.
+
+  Lemma sim_persistent st sh i : Rheap (heap st) sh -> sim_step st sh (OPersistent i).
+  Proof.
+    intros HR. begin.
+    cases_on st sh i HR; try (rd; split; [reflexivity|exact HR]).
+    - destruct ic as [e|mm|mm], sc as [l|m f|l f]; simpl in HC; try contradiction; rd.
+      + subst l. split.
+        * apply acc_coll_ce. cbn [abs_coll]. rewrite H_evolver_persistent. constructor.
+        * eapply Rheap_set_l; [exact HR|exact HN|]. simpl. apply H_evolver_persistent_stays.
+      + destruct HC as [R _]. split.
+        * apply acc_coll_ce. cbn [abs_coll]. constructor. symmetry. apply Rmut_finish. exact R.
+        * apply Rheap_set; [exact HR|]. simpl. apply Rmut_finish_snd. exact R.
+      + destruct HC as [R _]. split.
+        * apply acc_coll_ce. cbn [abs_coll]. constructor. symmetry. apply Rkeys_finish. exact R.
+        * apply Rheap_set; [exact HR|]. simpl. apply Rkeys_finish_snd. exact R.
+  Qed.
+
+  Lemma sim_conjT st sh i x : Rheap (heap st) sh -> sim_step st sh (OConjT i x).
+  Proof.
+    intros HR. begin.
+    cases_on st sh i HR; try (rd; split; [reflexivity|exact HR]).
+    destruct ic as [e|mm|mm], sc as [l|m f|l f]; simpl in HC; try contradiction.
+    - subst l. rd. split; [apply acc_exact|]. apply Rheap_set; [exact HR|]. simpl. apply H_evolver_append.
+    - destruct HC as [R F]. destruct f.
+      + (* after persistent! *)
+        unfold mut_conj1. destruct x as [[]|[|k [|v [|w r]]]]; rd; try (split; [reflexivity|exact HR]).
+        * split; [reflexivity|]. eapply Rheap_set_l; [exact HR|exact HN|]. simpl. auto.
+        * rewrite (H_mut_set_finished L mm k v F). rd. split; [reflexivity|exact HR].
+      + pose proof (mut_conj1_sim L mm m x R F) as H.
+        destruct (mut_conj1 L mm x) as [mm'|], (c_conj1 (CMap m) x) as [[]|]; try contradiction; rd.
+        * destruct H as [R' F']. split; [apply acc_exact|]. apply Rheap_set; [exact HR|]. simpl. auto.
+        * split; [reflexivity|exact HR].
+    - destruct HC as [R F]. destruct f.
+      + rewrite (H_mut_set_finished L mm x x F). rd. split; [reflexivity|exact HR].
+      + destruct (Rkeys_add L mm l x R F) as (mm' & E & R' & F'). rewrite E. rd.
+        split; [apply acc_exact|]. apply Rheap_set; [exact HR|]. simpl. auto.
+  Qed.
+
+  Lemma sim_assocT st sh i k v : Rheap (heap st) sh -> hazard_neg L st (OAssocT i k v) = false ->
+    sim_step st sh (OAssocT i k v).
+  Proof.
+    intros HR HZ. begin. cbn [hazard_neg] in HZ.
+    cases_on st sh i HR; try (rd; split; [reflexivity|exact HR]).
+    destruct ic as [e|mm|mm], sc as [l|m f|l f]; simpl in HC; try contradiction.
+    - subst l. unfold tvec_assoc. destruct (key_int k) as [z|] eqn:E; [|rd; split; [reflexivity|exact HR]].
+      assert (neg_key k = false) as N by (eapply hz_tvec; eauto; exact ONil).
+      rewrite <- (py_set_nonneg _ _ _ (neg_key_int k z N E)).
+      pose proof (ev_set_abs L e z v) as H. destruct (ev_set L e z v) as [e'|]; rewrite H; rd.
+      + split; [apply acc_exact|]. apply Rheap_set; [exact HR|]. reflexivity.
+      + split; [reflexivity|exact HR].
+    - destruct HC as [R F]. destruct f.
+      + rewrite (H_mut_set_finished L mm k v F). rd. split; [reflexivity|exact HR].
+      + destruct (Rmut_set L mm m k v R F) as (mm' & E & R' & F'). rewrite E. rd.
+        split; [apply acc_exact|]. apply Rheap_set; [exact HR|]. simpl. auto.
+    - destruct f; rd; (split; [reflexivity|exact HR]).
+  Qed.
+
+  Lemma sim_dissocT st sh i k : Rheap (heap st) sh -> sim_step st sh (ODissocT i k).
+  Proof.
+    intros HR. begin.
+    cases_on st sh i HR; try (rd; split; [reflexivity|exact HR]).
+    destruct ic as [e|mm|mm], sc as [l|m f|l f]; simpl in HC; try contradiction;
+      try (rd; split; [reflexivity|exact HR]).
+    - destruct HC as [R F]. destruct f.
+      + rewrite (mut_dissoc_finished L mm k F). rd. split; [reflexivity|exact HR].
+      + destruct (Rmut_dissoc L mm m k R F) as (mm' & E & R' & F'). rewrite E. rd.
+        split; [apply acc_exact|]. apply Rheap_set; [exact HR|]. simpl. auto.
+  Qed.
+
+  Lemma sim_disjT st sh i x : Rheap (heap st) sh -> sim_step st sh (ODisjT i x).
+  Proof.
+    intros HR. begin.
+    cases_on st sh i HR; try (rd; split; [reflexivity|exact HR]).
+    destruct ic as [e|mm|mm], sc as [l|m f|l f]; simpl in HC; try contradiction;
+      try (rd; split; [reflexivity|exact HR]).
+    - destruct HC as [R F]. destruct f.
+      + rewrite (mut_dissoc_finished L mm x F). rd. split; [reflexivity|exact HR].
+      + destruct (Rkeys_del L mm l x R F) as (mm' & E & R' & F'). rewrite E. rd.
+        split; [apply acc_exact|]. apply Rheap_set; [exact HR|]. simpl. auto.
+  Qed.
+
+  Lemma sim_popT st sh i : Rheap (heap st) sh -> sim_step st sh (OPopT i).
+  Proof.
+    intros HR. begin.
+    cases_on st sh i HR; try (rd; split; [reflexivity|exact HR]).
+    destruct ic as [e|mm|mm], sc as [l|m f|l f]; simpl in HC; try contradiction;
+      try (rd; split; [reflexivity|exact HR]).
+    subst l. rewrite H_evolver_len, zlen_eq0. destruct (ev_list L e) as [|x r] eqn:E; rd.
+    - split; [reflexivity|exact HR].
+    - split; [apply acc_exact|]. apply Rheap_set; [exact HR|]. simpl. rewrite H_evolver_del_last, E. reflexivity.
+  Qed.
+
+  (** ** equality *)
+  Lemma forallb_ext' {A} (f g : A -> bool) l : (forall x, f x = g x) -> forallb f l = forallb g l.
+  Proof. intro H. induction l; simpl; [reflexivity|]. rewrite H, IHl. reflexivity. Qed.
+
+  Lemma coll_eq_abs a b : coll_eq L a b = coll_equal (abs_coll L a) (abs_coll L b).
+  Proof.
+    destruct a as [p|p|p|p|p], b as [q|q|q|q|q]; try reflexivity.
+    - simpl. rewrite !H_map_len, H_map_eq. reflexivity.
+    - simpl. rewrite !H_map_len.
+      assert (forall r, zlen (set_keys L r) = zlen (m_items L r)) as Z
+        by (intro r; unfold zlen, set_keys; rewrite map_length; reflexivity).
+      rewrite !Z. f_equal. apply forallb_ext'. intro x. rewrite H_map_get, has_key_al_get. reflexivity.
+  Qed.
+
+  Lemma sim_eq st sh i j : Rheap (heap st) sh -> sim_step st sh (OEq i j).
+  Proof.
+    intros HR. begin. unfold tgt_eq. split; [|exact HR]. rd.
+    destruct (target_cases st sh i HR) as [[A1 A2]|[(ca & ma & A1 & A2)|[(aa & ia & sa & A1 & A2 & _)|[A1 A2]]]];
+    destruct (target_cases st sh j HR) as [[B1 B2]|[(cb & mb & B1 & B2)|[(ab & ib & sb & B1 & B2 & _)|[B1 B2]]]];
+    rewrite A1, A2; rewrite ?B1, ?B2; try reflexivity.
+    - rewrite coll_eq_abs. apply acc_exact.
+    - apply acc_exact.
+  Qed.
+
+  (** ** every operation *)
+  Theorem step_sim st sh o : Rheap (heap st) sh ->
+    hazard_neg L st o = false -> hazard_meta L st o = false -> sim_step st sh o.
+  Proof.
+    intros HR H1 H2. destruct o.
+    - apply sim_new; assumption.
+    - apply sim_new; assumption.
+    - apply sim_new; assumption.
+    - apply sim_conj; assumption.
+    - apply sim_assoc; assumption.
+    - apply sim_dissoc; assumption.
+    - apply sim_disj; assumption.
+    - apply sim_pop; assumption.
+    - apply sim_peek; assumption.
+    - apply sim_into; assumption.
+    - apply sim_empty; assumption.
+    - apply sim_with_meta; assumption.
+    - apply sim_meta; assumption.
+    - apply sim_update; assumption.
+    - apply sim_merge; assumption.
+    - apply sim_seq; assumption.
+    - apply sim_rseq; assumption.
+    - apply sim_count; assumption.
+    - apply sim_nth; assumption.
+    - apply sim_get; assumption.
+    - apply sim_contains; assumption.
+    - apply sim_transient; assumption.
+    - apply sim_persistent; assumption.
+    - apply sim_conjT; assumption.
+    - apply sim_assocT; assumption.
+    - apply sim_dissocT; assumption.
+    - apply sim_disjT; assumption.
+    - apply sim_popT; assumption.
+    - apply sim_eq; assumption.
   Qed.
 End Sim.
